@@ -274,7 +274,10 @@ def file_text(path, kind, rnd, extra=True, n_before=None, linger=False):
     m = f" -- F{path}"
     recs = []
     def ok_rec():
-        c = rnd.randint(0, 5) if extra else 0
+        c = rnd.randint(0, 6) if extra else 0
+        if c == 6:
+            # passes only if no sort mode / hash threshold of an EARLIER file is still in force
+            return f"query T\ndesc 3 {rnd.randint(1, 99)}{m}\n----\nr2\nr1\nr0\n"
         if c == 5:
             # unequal run times: completion order differs from file order in parallel mode
             return f"statement ok\nslow {rnd.choice([5, 20, 60, 120])} x{m}\n"
@@ -299,6 +302,9 @@ def file_text(path, kind, rnd, extra=True, n_before=None, linger=False):
         recs.append(ok_rec())
     if kind == "pass":
         recs.append(ok_rec())
+        if extra and rnd.random() < 0.3:
+            # the last word of a file: runner state that must not outlive the file
+            recs.append(rnd.choice(["control sortmode rowsort\n", "hash-threshold 1\n", "control sortmode valuesort\n"]))
     elif kind == "fail":
         recs.append(f"statement ok\nfail{m}\n")
         recs.append(ok_rec())
@@ -400,7 +406,7 @@ def trace_events(events, mgmt_db, files):
     return out, dbs
 
 
-def find_labels(jobs, keep, ff, dbs, res, refused_f, evs, sig, cap=300000):
+def find_labels(jobs, keep, ff, dbs, res, refused_f, evs, sig, cap=300000, late_signal=False):
     """untrusted search for a label sequence of the driver model (Cli.lean, `dstep`) whose log is `evs`
     and whose results are `res`; None if there is none (or the search gave up: second component)"""
     n = len(dbs)
@@ -432,7 +438,8 @@ def find_labels(jobs, keep, ff, dbs, res, refused_f, evs, sig, cap=300000):
     def go(pos, nxt, infl, cancelled):
         # infl: tuple of (file, frozenset of open sessions), in start order
         if pos == len(R) and nxt == n and not infl:
-            return []
+            # a signal that arrives when every file is through still fails the run (exit status)
+            return ["signal"] if (late_signal and sig and not cancelled) else []
         key = (pos, nxt, infl, cancelled)
         if key in dead:
             return None
@@ -503,7 +510,10 @@ def clitrace_case(jobs, keep, ff, files, kinds, tags, r):
     sig = any(e["ev"] == "sigint" for e in r.events)
     labels, gave_up = (None, False)
     if all(d is not None for d in dbs) and "none" not in res:
-        labels, gave_up = find_labels(jobs, keep, ff, dbs, res, refused_f, evs, sig)
+        # exit status 0 after a signal: the signal came too late to count (the witness has no signal
+        # label then, and the model's exit decision must agree); otherwise a signal that no result
+        # shows is placed after the last file
+        labels, gave_up = find_labels(jobs, keep, ff, dbs, res, refused_f, evs, sig, late_signal=(r.exit != 0))
     if gave_up:
         return None
     def ev_tok(e):
@@ -520,6 +530,7 @@ def clitrace_case(jobs, keep, ff, files, kinds, tags, r):
     s += f" {len(labels)}" + "".join(" " + l for l in labels)
     s += f" {len(evs)}" + "".join(" " + ev_tok(e) for e in evs)
     s += f" {len(res)}" + "".join(" " + t for t in res)
+    s += f" {1 if r.exit == 0 else 0}"
     return s
 
 
@@ -560,6 +571,15 @@ def cli_run_set(cwd, files, kinds, jobs, fail_fast, keep, rnd, sigint_at=0, late
     if os.path.exists(jpath):
         os.remove(jpath)
     r = run_cli(cwd, args, env, timeout=25)
+    if r.timeout:
+        # seen once in a thorough tier while three release builds and the removal of their output ran on
+        # the same disk: a run stalled for 25 s at an ordinary request and could not be reproduced in 40
+        # tries.  A run that does not come back is therefore repeated once; only a second time-out counts
+        # (a hang that the code under test causes deterministically shows both times).
+        if os.path.exists(jpath):
+            os.remove(jpath)
+        r = run_cli(cwd, args, env, timeout=25)
+        r.retried = True
     tags = statuses(r.stdout, files)
     ju = junit(jpath)
     cancel_at = None
@@ -1352,6 +1372,8 @@ def libtrace_case(line):
     s += f" {len(labels)}" + "".join(" " + l for l in labels)
     s += f" {len(evs)}" + "".join(" " + ev_tok(e) for e in evs)
     s += f" {len(res)}" + "".join(" " + r for r in res)
+    # (the library returns one verdict for the whole run: Ok iff no file failed)
+    s += f" {0 if any(failed for _, failed in files) else 1}"
     return s
 
 
